@@ -30,7 +30,7 @@ def run(ctx: Ctx) -> None:
     require_ok(r, "HttpStream MethodBound")
     ctx.exhaustive = True
     orig = run_tlc(wd, "HttpStream", render_cfg(
-        constants=consts(2, False, "{1}", fix=(True, False, False), methods='{"xa", "xb"}', max_clock=0, streams=1),
+        constants=consts(2, False, "{1}", fix=(True, False, False, False), methods='{"xa", "xb"}', max_clock=0, streams=1),
         invariants=["MethodBound"]))
     ctx.extra["design_as_found_violates"] = orig.violated
     ctx.rule = ("case = one presentation of a real token pair minted by method m at endpoint e (worker warm/cold, "
